@@ -117,7 +117,13 @@ fn run_random(seed: &str, iters: &str, calls: &str) -> String {
                 (0..c[1..].parse::<usize>().unwrap()).collect()
             };
             let refs: Vec<&Task> = ids.iter().map(|i| &tasks[*i]).collect();
-            match sched.next_task(&refs, None, false) {
+            // T: no current task; C: the first offered task is the current one; Y: it is the current one and has just yielded
+            let (cur, yielding) = match c.as_bytes()[0] {
+                b'Y' => (ids.first().map(|i| TaskId::from(*i)), true),
+                b'C' => (ids.first().map(|i| TaskId::from(*i)), false),
+                _ => (None, false),
+            };
+            match sched.next_task(&refs, cur, yielding) {
                 Some(t) => out.push(format!("t{}", usize::from(t))),
                 None => out.push("x".to_string()),
             }
@@ -186,6 +192,14 @@ pub fn run(words: &[&str]) -> String {
         CONTINUATION_POOL.set(&ContinuationPool::new(), || match &words[..] {
             [k, mi, bound, tree] if k == "dfs" => run_dfs(mi, bound, tree),
             [k, seed, iters, calls] if k == "random" => run_random(seed, iters, calls),
+            // randomenv <env seed> <seed> <iters> <calls>: the same with SHUTTLE_RANDOM_SEED set while the scheduler is built
+            // (the documented way of re-running a reported failing seed)
+            [k, env, seed, iters, calls] if k == "randomenv" => {
+                std::env::set_var("SHUTTLE_RANDOM_SEED", env);
+                let r = run_random(seed, iters, calls);
+                std::env::remove_var("SHUTTLE_RANDOM_SEED");
+                r
+            }
             [k, seed, depth, iters, calls] if k == "pct" => run_pct(seed, depth, iters, calls),
             _ => "ERR bad case".to_string(),
         })
